@@ -19,11 +19,13 @@ func versionWord(v spirv.Version) uint32 { return uint32(v.Major)<<16 | uint32(v
 func (c *ctx) spvOptionSet() (spirv.Options, string) {
 	o := spirv.Options{Version: spvVersions[c.rng.Intn(len(spvVersions))], Debug: c.chance(0.3), ForceLoopBounding: c.chance(0.3),
 		ForcePointSize: c.chance(0.2), AdjustCoordinateSpace: c.chance(0.2)}
+	pol := "default"
 	if c.chance(0.3) {
 		p := spirv.BoundsCheckPolicy(c.rng.Intn(3))
 		o.BoundsCheckPolicies = spirv.BoundsCheckPolicies{ImageLoad: p, ImageStore: p, Index: p}
+		pol = fmt.Sprint(int(p))
 	}
-	return o, fmt.Sprintf("v%d.%d debug=%v loopbound=%v pointsize=%v adjust=%v", o.Version.Major, o.Version.Minor, o.Debug, o.ForceLoopBounding, o.ForcePointSize, o.AdjustCoordinateSpace)
+	return o, fmt.Sprintf("v%d.%d debug=%v loopbound=%v pointsize=%v adjust=%v policies=%s", o.Version.Major, o.Version.Minor, o.Debug, o.ForceLoopBounding, o.ForcePointSize, o.AdjustCoordinateSpace, pol)
 }
 
 func c02Case(c *ctx, m *ir.Module, name, src string) {
@@ -136,6 +138,16 @@ var c02ImageStmts = []string{
 	"textureStore(tw, c, outp[0]);",
 	"textureStore(tw, c, outp[0]); textureStore(tb, c, outp[1]);",
 	"outp[0] = textureLoad(t2, c, 0) + textureLoad(tms, c, 1) + textureLoad(ts, c);",
+	// unsigned coordinates, levels, sample and array indices (the bounds checks build constants of the coordinate type)
+	"outp[0] = textureLoad(t2, id.xy, 0u);",
+	"outp[1] = textureLoad(t2, vec2<u32>(id.xy), id.z);",
+	"outp[2] = textureLoad(tms, id.xy, id.z);",
+	"outp[3] = textureLoad(ts, id.xy);",
+	"outp[5] = textureLoad(t2a, id.xy, id.z, 1u);",
+	"outp[5] = textureLoad(t2a, id.xy, 1, id.y);",
+	"outp[6] = vec4<f32>(textureLoad(t1, id.x, 0u));",
+	"outp[7] = vec4<f32>(textureLoad(t3, id, 0)).xyzw * 0.0 + outp[7];",
+	"textureStore(tw, id.xy, outp[0]);",
 }
 
 func c02ImageProbes(c *ctx) {
